@@ -1,7 +1,8 @@
 (* C07 - pinned statements (Jaccard bounds of SetSketch).  jb_sup, jb_binf, jb_inf, pb_fun and the
    two flags are regenerated from src/setsketcher.rs; X stands for b^(jac/2). *)
 From Coq Require Import Reals.
-From PMH Require Import Gen.SetSketchFormulas Proofs.SetFormulas.
+From Coq Require Import List.
+From PMH Require Import Gen.SetSketchFormulas Proofs.SetFormulas Gen.SetSketchLaw Proofs.SetLaw Model.Estimators Gen.EstIdx Proofs.Estimators.
 Open Scope R_scope.
 
 (* the function asserts nothing about the order of its results: it returns for every jac <= 1 *)
@@ -27,8 +28,31 @@ Theorem C07_pb_collision : forall b x y, 1 < b -> x * (b - 1) / b < 1 -> y * (b 
   Rpower b (1 - pb_fun b x - pb_fun b y) = b * (1 - x * (b - 1) / b) * (1 - y * (b - 1) / b).
 Proof. exact pb_collision. Qed.
 
+(* the register law, on the formulas regenerated from SetSketcher::sketch: the increment of the j-th value is
+   Exp(1)/(a (m - j)) (Renyi spacing of m exponentials of rate a); a register is >= k exactly when the value
+   reaching it is <= b^(1-k); a larger value gives a smaller register (so the early exits are sound) *)
+Theorem C07_increment_is_renyi_spacing : forall a m j, 0 < a -> j < m -> ss_gap a m j = / (a * (m - j)).
+Proof. exact ss_gap_is_renyi_spacing. Qed.
+
+Theorem C07_register_threshold : forall lnb x k, 0 < lnb -> 0 < x ->
+  (k <= ss_reg_real lnb x <-> x <= exp ((1 - k) * lnb)).
+Proof. exact ss_reg_threshold. Qed.
+
+Theorem C07_register_antitone : forall lnb x y, 0 < lnb -> 0 < x -> x <= y -> ss_reg_real lnb y <= ss_reg_real lnb x.
+Proof. exact ss_reg_antitone. Qed.
+
+(* the fraction of equal registers is computed by jaccard::get_jaccard_index_estimate (regenerated shape):
+   on equal lengths exactly (number of equal positions, length) *)
+Theorem C07_estimator_is_match_fraction : forall a b, length a = length b ->
+  est_run est_jaccard_get_jaccard_index_estimate a b = EstOk (count_eq a b) (length a).
+Proof. exact (fun a b H => est_exact est_jaccard_get_jaccard_index_estimate a b (eq_refl true) H). Qed.
+
 Print Assumptions C07_no_order_assertion.
 Print Assumptions C07_bounds_ordered.
 Print Assumptions C07_bounds_gap.
 Print Assumptions C07_bounds_contain_J.
 Print Assumptions C07_pb_collision.
+Print Assumptions C07_increment_is_renyi_spacing.
+Print Assumptions C07_register_threshold.
+Print Assumptions C07_register_antitone.
+Print Assumptions C07_estimator_is_match_fraction.
